@@ -224,7 +224,11 @@ def run(ctx, report: Report) -> None:
     # ---- R3 ----------------------------------------------------------------------------------------------
     r3 = report.rule('C16-R3', 'importing has no visible effect', floor=3)
     effect_calls = {'print', 'warnings.warn', 'warn', 'warn_deprecated', 'util.warn_deprecated', 'sys.stdout.write',
-                    'sys.stderr.write', 'logging.warning', 'logging.info'}
+                    'sys.stderr.write', 'logging.warning', 'logging.info', 'logging.basicConfig', 'logging.error',
+                    # process-wide state other programs can observe after `import soupsieve`
+                    'warnings.filterwarnings', 'warnings.simplefilter', 'warnings.resetwarnings', 'filterwarnings', 'simplefilter',
+                    'sys.setrecursionlimit', 'sys.path.insert', 'sys.path.append', 'os.environ.setdefault', 'os.putenv',
+                    'locale.setlocale', 'atexit.register', 'signal.signal', 'sys.setswitchinterval', 'gc.disable', 'gc.enable'}
     import_consts = []
     pm = src.mod('css_parser')
     for st in pm.tree.body:
